@@ -249,3 +249,49 @@ def no_iteration_over_mutated_collections(ctx):
     """cross-cutting: no loop of the client / proxy iterates a live collection that its body mutates"""
     from sa.rules import common
     common.iterate_while_mutating(ctx, {'frappy.client', 'frappy.proxy'})
+
+
+
+@rule('C12.R2d', min_instances=1)
+def per_callback_flag(ctx):
+    """register_callback: whether a callback is appended is decided per callback - the flag guarding the append (cleared
+    when the immediate first call of THIS callback raises UnregisterCallback) is set again for every callback of the call"""
+    m = ctx.m
+    f = m.method('frappy.client.ProxyClient', 'register_callback', inherited=False)
+    ctx.analysed(f)
+    loops = [x for x in body_walk(f.node) if isinstance(x, ast.For) and 'kwds' in src(x.iter)]
+    if not loops:
+        raise AnchorMissing('loop over the callbacks (kwds) not found in register_callback')
+    n = 0
+    for loop in loops:
+        inner = [x for st in loop.body for x in walk_local(st)]
+        for c in [x for x in inner if isinstance(x, ast.Call) and call_attr(x) == 'append']:
+            guards = [a for a in ancestors(c) if isinstance(a, ast.If) and any(a is y for y in inner) and isinstance(a.test, ast.Name)]
+            for g in guards:
+                n += 1
+                name = g.test.id
+                inside = any(isinstance(a, ast.Assign) and src(a.targets[0]) == name and isinstance(a.value, ast.Constant) and a.value.value is True
+                             for a in inner)
+                ctx.check(inside, f'{f.qualname}:{name} decided per callback', g, f'`{name} = True` inside the loop over the callbacks',
+                          f'`{name}` guards the registration of each callback but is set to True only outside the loop over the callbacks: one callback '
+                          'that unregisters itself during its immediate first call keeps all later callbacks of the same call from being '
+                          'registered - they never see any later message', f)
+    if not n:
+        ctx.info(f'{f.qualname}:append decided per callback', f.node, 'the append is not guarded by a flag', f)
+
+
+@rule('C12.R6c', min_instances=1)
+def integers_keep_their_precision_end_to_end(ctx):
+    """shared with C01.R3b: node and client both import an integer through IntRange.__call__, which converts the offered
+    value itself and not its float probe - a value above 2**53 written through the client reaches the driver unchanged"""
+    from sa.rules import c01
+    c01.int_of_the_value_itself(ctx)
+
+
+@rule('C12.R6d', min_instances=3)
+def scaled_values_reach_the_driver_on_the_grid(ctx):
+    """shared with C03.R5: client and node convert a scaled value to its transported integer by int(round(x / scale)); a
+    truncating form sends a neighbouring grid point for negative values, the driver receives another value than the
+    caller passed"""
+    from sa.rules import c03
+    c03.grid_quotient_is_rounded(ctx)
